@@ -34,6 +34,17 @@ CLAIMED.update({
    text='Theorems c15_received, c15_pay_event, c15_add_event, c15_zero_rejected, c15_pay_ledger, c15_refund, c15_collect (inductive relation: skipped above the current balance or transferred exactly), c15_collect_zero, c15_outflow (for every operation and caller the balance decreases only in collectFees/refund by the collector), c15_collector; endpoint/payable table, event names and struct field orders regenerated and pinned.',
    note='Trusted: Coq kernel; hand-written model tied by the correspondence (status, events, storage, balances on every step); gen_tables.py; harness.'),
 })
+CLAIMED.update({
+ 'C11': dict(section='8/C11', technique='Coq proof (dispatch precondition, command effects, callback effects, and for ALL schedules: a cancelled proposal stays undispatchable until rescheduled) + differential correspondence of gateway+governance in the Rust VM with harness-scheduled promises + trace monitors',
+   text='Theorems c11_dispatch_requires, c11_commands (eta >= now + delay, no reschedule), c11_callback, c11_cancel_kills, c11_cancelled_stays_cancelled (induction over arbitrary operation lists = all interleavings of dispatch, target call, callback and other transactions), c11_dead_no_dispatch; c11_unrepaired_refuted exhibits the history on which the source before the fix: commit violated the property. The real contracts are compared step by step with the model and a monitor re-checks the property on the implementation trace.',
+   note='Trusted: Coq kernel; hand-written model of governance+gateway tied by the correspondence; external target abstracted to an outcome; gas not modelled. Genuine defect F-C11-1 repaired by a fix: commit (known_findings.json).'),
+ 'C12': dict(section='8/C12', technique='Coq proof (authenticated-command precondition with gateway consumption, no replay, table frame for every other operation, operator dispatch/approval algebra for all schedules, operator and funds gates) + differential correspondence + trace monitors',
+   text='Theorems c12_execute_requires, c12_no_replay, c12_tables_frame, c12_operator_dispatch, c12_operator_callback, c12_cancelled_approval_stays_cancelled, c12_deadop_no_dispatch, c12_operator_change, c12_withdraw_self_only.',
+   note='Trusted: as C11. Genuine defect F-C12-1 repaired by the same fix: commit.'),
+ 'C16': dict(section='8/C16', technique='Coq proof (credit arithmetic per token incl. repeated tokens, callback credits under any schedule, withdrawal exactness, frame) + differential correspondence + trace monitor',
+   text='Theorems c16_credit, c16_callback_credits, c16_withdraw, c16_frame: outstanding credits = attached to failed dispatches - withdrawn, per user and token.',
+   note='Trusted: as C11.'),
+})
 NOT_YET = {}
 def main():
     props = [json.loads(l) for l in open(os.path.join(ROOT, 'properties.jsonl'))]
